@@ -486,6 +486,34 @@ func (t *wal) Clear() error {
 	return nil
 }
 
+// clearAfterLastSegmentDeleted leaves the wal empty, like Clear. It is called with the lock held, after the
+// current segment was deleted (and thereby closed) and no read-only segment is left.
+func (t *wal) clearAfterLastSegmentDeleted() error {
+	err := multierr.Combine(
+		t.readOnlySegments.Close(),
+		os.RemoveAll(t.walPath),
+	)
+
+	if err != nil {
+		t.writeErrors.Inc()
+		return errors.Wrap(err, "failed to clear wal")
+	}
+
+	if t.currentSegment, err = newReadWriteSegment(t.walPath, 0, t.segmentSize,
+		0, t.commitOffsetProvider); err != nil {
+		return err
+	}
+
+	if t.readOnlySegments, err = newReadOnlySegmentsGroup(t.walPath); err != nil {
+		return err
+	}
+
+	t.lastAppendedOffset.Store(InvalidOffset)
+	t.lastSyncedOffset.Store(InvalidOffset)
+	t.firstOffset.Store(InvalidOffset)
+	return nil
+}
+
 func (t *wal) Delete() error {
 	// NOTE: we must close the trimmer before closing the wal(without the lock), otherwise
 	// when trimmer is doTrim, it accquire the lock and it will block forever
@@ -537,7 +565,7 @@ func (t *wal) TruncateLog(lastSafeOffset int64) (int64, error) { //nolint:revive
 				return InvalidOffset, err
 			case segment == nil:
 				// There are no segments left
-				if err := t.Clear(); err != nil {
+				if err := t.clearAfterLastSegmentDeleted(); err != nil {
 					return InvalidOffset, err
 				}
 				return t.LastOffset(), nil
